@@ -347,7 +347,19 @@ fn sweep05(part: usize, parts: usize) -> impl Iterator<Item = Case05> {
         refimpl::gcc::ScBlock::Unknown { typ: 0x0C04, body: vec![1, 2, 3, 4] },
     ];
     p2.license = wire::License::NewLicense { body: vec![0; 12] };
-    for profile in [ServerProfile::simple(1004, 0x000103EA), p2] {
+    // a server that selects Standard RDP Security (SC_SECURITY with random and certificate) and announces a message channel
+    // and multitransport; and the same layout with nothing selected
+    let mut p3 = ServerProfile::simple(1004, 0x000103EA);
+    p3.ccrsp.blocks = vec![
+        refimpl::gcc::ScBlock::Core { version: 0x00080004, requested: Some(1), early_caps: Some(1) },
+        refimpl::gcc::ScBlock::SecurityFull { method: 2, level: 2, random: vec![0xAB; 32], cert: vec![0xCD; 184] },
+        refimpl::gcc::ScBlock::Net { io_channel: 1003, ids: vec![1004], pad: true },
+        refimpl::gcc::ScBlock::Unknown { typ: 0x0C04, body: vec![0xEC, 0x03] },
+        refimpl::gcc::ScBlock::Unknown { typ: 0x0C08, body: vec![1, 0, 0, 0] },
+    ];
+    let mut p4 = p3.clone();
+    p4.ccrsp.blocks[1] = refimpl::gcc::ScBlock::SecurityFull { method: 0, level: 0, random: vec![], cert: vec![] };
+    for profile in [ServerProfile::simple(1004, 0x000103EA), p2, p3, p4] {
         let built = setup_messages(&profile);
         for (mi, b) in built.iter().enumerate() {
             let scalars = b.fields.iter().filter(|f| f.width > 0).count();
